@@ -35,7 +35,7 @@ ASSUMPTIONS = [
     'virtual children are bound to real child processes by the byte-level conformance cases of C07',
 ]
 BOUND = {
-    'quick': 'k=2 children: preemption bound 2 (1 with 8-byte pipes), N in 1..3, 3 collectors, 2 pipe capacities, 4 script pairs (two with a spawn failure: last / first layer); k=3: bound 0, N in 1..4 (bound 1 for the start-dependency script at N=2,3); worlds: 6 shapes x <=1 outcome (8 kinds incl. fd-2 noise) x -j1..-j4 x -v0..2',
+    'quick': 'k=2 children: preemption bound 2 (1 with 8-byte pipes), N in 1..3, 3 collectors, 2 pipe capacities, 4 script pairs (two with a spawn failure: last / first layer); k=3: bound 0, N in 1..4 (bound 1 for the start-dependency script at N=2,3); worlds: 6 shapes x <=1 outcome (9 kinds incl. fd-2 noise and a failing id with FF/LS/NEL/FS/VT) x -j1..-j4 x -v0..2',
     'thorough': 'k=2: preemption bound 3 (2 with 8-byte pipes); k=3: bound 2; k=4: bound 1, N in 2..5; worlds with <=2 outcomes',
 }
 CHUNK = 1
@@ -131,7 +131,10 @@ def cases(tier, seed):
     menu = ['fail', 'error', 'uxs', 'sub:1,1,0', 'skip_body', 'body+teardown',
             # a failing test in a process whose real stderr also carries noise
             {'s': 'fail', 'w': [['fd2', 'some noise on fd 2\n', False]]},
-            {'s': 'body+teardown', 'w': [['fd2', 'warning: x\nwarning: y\n', False]]}]
+            {'s': 'body+teardown', 'w': [['fd2', 'warning: x\nwarning: y\n', False]]},
+            # failing ids with characters str.splitlines() treats as line
+            # breaks but the report protocol does not
+            {'s': 'sub:1,1,0', 'subm': 'page one\x0cpage two\u2028three\x85four\x1cfive\x0bsix'}]
     for shape in ow.SHAPES:
         nslots = len(ow.SHAPES[shape][1])
         block = []
